@@ -224,6 +224,17 @@ class ZC:
         raise NotImplementedError("truth value of a symbolic number")
 
     def __eq__(self, o):
+        # Only the `other == 0` idiom of Tensor.__add__/__radd__ (sum() start
+        # value) reaches this: a constant ZC compares by value, a non-constant
+        # one is "not literally that number" (adding an all-zero tensor gives
+        # the same result on either branch).
+        if isinstance(o, (int, float, complex)):
+            if z3.is_rational_value(self.re) and z3.is_rational_value(self.im):
+                return complex(
+                    self.re.numerator_as_long() / self.re.denominator_as_long(),
+                    self.im.numerator_as_long() / self.im.denominator_as_long()
+                ) == o
+            return False
         raise NotImplementedError("== on symbolic numbers (use prove_equal)")
 
     def __hash__(self):
